@@ -12,7 +12,8 @@ import json, os, re, subprocess, sys, time, tempfile, shutil, hashlib, select, s
 
 ROOT = os.path.dirname(os.path.abspath(__file__))
 BUILD = os.environ.get('VERIF_BUILD_DIR', os.path.join(ROOT, 'build'))      # developer aid (seeded-change evaluation): another build directory ...
-REPO_OVERRIDE = os.environ.get('VERIF_REPO')                                 # ... and another source tree than /repo; registered commands never set these
+REPO_OVERRIDE = os.environ.get('VERIF_REPO')
+SRC_PREFIX = (REPO_OVERRIDE or '/repo').rstrip('/') + '/src/'                                 # ... and another source tree than /repo; registered commands never set these
 TMP = os.path.join(BUILD, 'tmp')
 EVID = os.environ.get('VERIF_EVIDENCE_DIR', os.path.join(ROOT, 'evidence'))
 REPLAYS = os.path.join(ROOT, 'replays')
@@ -126,7 +127,7 @@ def asan_signature(err_path):
     sig = re.sub(r'\(/verif/build[^)]*\)', '', sig)
     sig = re.sub(r'\(BuildId: \w+\)', '', sig)
     # first frames inside /repo/src for a stable call site
-    frames = re.findall(r'#\d+ 0x[0-9a-f]+ in (\w+) /repo/src/(\w+\.c):(\d+)', txt)
+    frames = re.findall(r'#\d+ 0x[0-9a-f]+ in (\w+) ' + re.escape(SRC_PREFIX) + r'(\w+\.c):(\d+)', txt)
     if frames:
         sig += ' @ ' + ' < '.join(f'{fn}({f})' for fn, f, _ in frames[:3])
     m2 = re.search(r'runtime error: (.*)', txt)
@@ -144,7 +145,7 @@ def sanitizer_class(err_path, fallback):
     m = re.search(r'SUMMARY: \w+: (\S+)', txt)
     if m:
         typ = m.group(1)
-    m = re.search(r' in (\S+) /repo/src/', txt)
+    m = re.search(r' in (\S+) ' + re.escape(SRC_PREFIX), txt)
     if m:
         func = m.group(1)
     if typ in ('heap-buffer-overflow', 'heap-use-after-free', 'SEGV', 'stack-buffer-overflow', 'global-buffer-overflow', 'use-after-poison', 'unknown-crash',
@@ -342,12 +343,15 @@ def cmd_check(prop, tier, budget_s, nworkers, variants, base_seed):
     # ---- determinism sample: re-run some seeds in fresh processes, hashes must agree
     det_checked, det_bad = 0, []
     sample = [r for r in all_results if r['variant'] == variants[0]][:: max(1, len(all_results) // 12)][:12]
-    for r in sample:
+    def rerun(r):
         plan = plan_of_result(exes[r['variant']], prop, r['seed'], tier)
-        classes, h, _ = replay_plan(exes[r['variant']], plan, tier)
-        det_checked += 1
-        if h is not None and h != r['hash']:
-            det_bad.append((r['seed'], r['hash'], h))
+        return r, replay_plan(exes[r['variant']], plan, tier)
+    from concurrent.futures import ThreadPoolExecutor
+    with ThreadPoolExecutor(max_workers=max(1, min(nworkers, 12))) as ex:      # each re-run is its own fresh process
+        for r, (classes, h, _) in ex.map(rerun, sample):
+            det_checked += 1
+            if h is not None and h != r['hash']:
+                det_bad.append((r['seed'], r['hash'], h))
     if det_bad:
         print('HARNESS-ERROR: nondeterminism: run hash differs between worker and fresh process for', det_bad[:3])
         write_evidence(prop, tier, base_seed, all_results, all_crashes, [], [], time.time() - t0, variants, edges, det_checked, len(det_bad), nworkers)
@@ -361,7 +365,7 @@ def cmd_check(prop, tier, budget_s, nworkers, variants, base_seed):
                 continue
             groups.setdefault(sig_key(vio['cls'], vio['detail']), []).append({'seed': r['seed'], 'idx': r['i'], 'cls': vio['cls'], 'detail': vio['detail'], 'variant': r['variant'], 'hash': r['hash'], 'plan': None})
     for c in all_crashes:
-        if c['cls'].startswith('sanitizer:') and c['cls'].endswith(':?') and 'wr_' not in c['detail'] and '/repo/src' not in c['detail']:
+        if c['cls'].startswith('sanitizer:') and c['cls'].endswith(':?') and 'wr_' not in c['detail'] and SRC_PREFIX not in c['detail']:
             c['harness'] = True      # no library frame on the stack: the harness itself is at fault
         if c.get('harness'):
             print('HARNESS-ERROR: worker watchdog fired (seed %s)' % c['seed'])
